@@ -172,16 +172,65 @@ K('c15_from_str_len132', SIG, 'Signature::from_str', {'C15': T, 'C17': T},
   'monolithic: from_str on all 132-character ASCII strings: Ok iff 0x + valid payload', timeout=2400)
 
 # ---------------------------------------------------------------------------
+# bin crate: C16 key selection, C18 vanity prefix, C19 hex; process-level native stand-ins
+CMD, NEW, CLI = 'src/cmd.rs', 'src/cmd/new.rs', 'tests/verif_native_cli.rs'
+K('c16_private_key_selection', CMD, 'AccountOptions::private_key', {'C16': Q, 'C17': Q},
+  'for any passphrase, account index, hd_path absent/present and any callee verdicts: the passphrase reaches Mnemonic::seed unchanged; without hd_path the path is Path::for_index(account_index), with it the parsed text (index ignored); an invalid path is an error and nothing is derived; hdk::derive receives that seed and that path and its result is returned unchanged',
+  complete=True, bin=True, replay='none', bound='passphrase / path text <= 4 ASCII bytes (copied verbatim by the code; content symbolic)')
+for _d in (0, 1, 2, 3, 4, 5, 6, 7, 8, 40, 41):
+    K(f'c18_prefix_from_str_d{_d}', NEW, 'Prefix::from_str', {'C18': Q if _d <= 5 else T, 'C17': Q if _d <= 5 else T},
+      f'Prefix::from_str("0x" + any {_d} ASCII characters): Ok iff all are hex digits of either case; bytes / trailing nibble are the digit values; never panics',
+      complete=True, bin=True, bound=f'{_d} characters after 0x, content symbolic')
+for _l in (0, 1, 2, 4):
+    K(f'c18_prefix_missing_0x_len{_l}', NEW, 'Prefix::from_str', {'C18': Q if _l < 4 else T, 'C17': Q if _l < 4 else T},
+      f'every ASCII string of length {_l} that does not start with 0x is refused', complete=True, bin=True)
+for _k in range(0, 23):
+    K(f'c18_matches_k{_k}', NEW, 'Prefix::matches', {'C18': Q if _k in (0, 1, 2, 3, 19, 20, 21) else T},
+      f'Prefix::matches for {_k} whole bytes and an optional trailing nibble, all 2^160 addresses: true iff the address begins with exactly those hex digits',
+      complete=True, bin=True)
+N('nb_prefix_parse_and_match', NEW, 'Prefix::{from_str,matches}', {'C18': Q, 'C17': Q},
+  'every 1..3-digit prefix in every case combination parses and matches exactly the addresses whose hex starts with it; short texts parse iff 0x + hex digits',
+  'native: all 22 + 22^2 + 22^3 prefixes x 2048 addresses; all 2 x 11111 strings of length <= 4 over {0,9,a,f,A,F,g,x,-,space}', bin=True)
+N('nb_permissive_hex_enumerated', CMD, 'cmd::permissive_hex', {'C19': Q, 'C17': Q},
+  'permissive_hex(s) == reference decoder (drop whitespace, optional 0x, even number of hex digits of either case); never panics',
+  'native: all 1.8e7 strings of length <= 6 over {0,1,9,a,f,A,F,g,x,X,space,tab,newline,U+00A0,U+3000,-}', bin=True)
+N('nb_hex_roundtrip_and_layouts', CMD, 'cmd::permissive_hex o hex::encode', {'C19': Q},
+  'decode(encode(b)) == b; encode is 0x + two lower-case digits per byte; six layouts decode to the same bytes; odd digit count / foreign character rejected',
+  'native: one byte string of every length 0..=4096 (all 256 byte values) and all 65536 two-byte strings', bin=True)
+N('nb_cli_account_commands', CLI, 'address / export / public-key commands', {'C16': Q},
+  'address, export, public-key print the EIP-55 address, 0x-hex secret and uncompressed public key of the key the library derives for the selector; flags == environment; the two selectors conflict',
+  'native CLI: 2 mnemonics x 3 passphrases x 8 selectors x 3 commands x {flags, environment}')
+N('nb_cli_sign_hash_pairing', CLI, 'sign / hash commands', {'C16': Q, 'C15': Q, 'C11': Q},
+  'every sign subcommand signs (low-s, recoverable to the selected key) exactly the digest the matching hash subcommand prints; hash --signature == keccak(sign output), with and without 0x; legacy without chain id refused unless the override flag is given (then v in {27,28}); hash data / --message-hash',
+  'native CLI: 3 account selectors x (3 messages, 3 transactions, typed data, raw) + guard cases')
+N('nb_cli_malformed_inputs_are_ordinary_errors', CLI, 'every CLI parser', {'C17': Q, 'C09': Q, 'C13': Q, 'C14': Q, 'C15': Q},
+  'malformed input to every parser named in C17 yields a non-zero, non-panic exit with a message and no output; 64 array suffixes are accepted',
+  'native CLI: about 230 listed malformed inputs (word counts, indices, paths, signatures, digests, transaction / typed-data JSON, hex, vanity prefixes, lengths)')
+N('nb_cli_vanity_search', CLI, 'new --vanity-prefix', {'C18': Q, 'C12': Q},
+  'the printed phrase is a valid mnemonic of the requested length whose selected account address starts with the requested digits (case-insensitive), for every thread count',
+  'native CLI: 27 prefixes (all single digits both cases, four 2-digit, one 3-digit) x thread counts 0,1,2,16 x rotating vanity options, 2 repetitions for 1-digit prefixes')
+
+# ---------------------------------------------------------------------------
 NOT_APPLICABLE = {
     'C02': 'the property is the definition of PBKDF2-HMAC-SHA512 and NFKD in the pbkdf2/hmac/sha2/unicode-normalization dependencies; no contract within reach of Verus (cannot link the crates) or Kani (2048x2 SHA-512 compressions on symbolic input; trait-method call sites cannot be stubbed) can express or decide it',
     'C03': 'derive_slice interleaves its glue with HMAC-SHA512, SEC1 compression and secp256k1 scalar addition from hmac/k256 inside one loop body; those trait-method calls cannot be cut out by Kani stubs nor seen by Verus, and symbolic HMAC/EC arithmetic has no tractable encoding or independent oracle',
     'C05': 'try_sign is a single call into k256 RFC 6979 signing; validity, recoverability, low-s and RFC 6979 equality are theorems about secp256k1/HMAC-DRBG in the dependency that neither installed verifier can express',
 }
 _PENDING = 'check not built yet in this session (see DESIGN.md for the planned contracts)'
-for _p in ('C04', 'C06', 'C08', 'C09', 'C11', 'C13', 'C16', 'C17', 'C18', 'C19', 'C20'):
+for _p in ('C04', 'C06', 'C08', 'C09', 'C11', 'C13', 'C16', 'C17', 'C20'):
     NOT_APPLICABLE.setdefault(_p, _PENDING)
 
 PROPS = {
+    'C18': dict(level='proof',
+                technique='Kani/CBMC contracts on the real Prefix::from_str (per digit count, symbolic content) and Prefix::matches (all prefix lengths x all addresses); native process-level stand-in for the search and threads',
+                claim='Prefix::from_str is proved for 0..5 arbitrary ASCII characters after 0x (quick; 6, 7, 8, 40, 41 in thorough) and for all short texts without 0x: accepted iff hexadecimal in either case, digit values exact, never panics; Prefix::matches is proved for prefix lengths 0-3 and 19-21 bytes (+ nibble) in quick, every length 0..22 in thorough, against all 2^160 addresses. That the generator prints a phrase whose own account matched, for every thread interleaving, is NOT decidable by a sequential contract verifier: covered only by the bounded native CLI stand-in (27 prefixes x 4 thread counts).',
+                note='Not decided: thread schedules of the vanity search (Kani has no threads), the search loop itself (needs PBKDF2/secp256k1), clap option wiring; these are exercised only by nb_cli_vanity_search with stated bounds. Prefix digit counts other than those listed follow the same loop body but are not machine-checked.',
+                native_timeout=2400),
+    'C19': dict(level='exploration',
+                technique='bounded stand-in only: native exhaustive enumeration against a reference decoder (permissive_hex is outside the reach of both installed verifiers)',
+                claim='BOUNDED, not proved: permissive_hex agrees with the reference decoder on all 1.8e7 strings of length <= 6 over a 16-character alphabet (hex digits of both cases, x, ASCII and Unicode whitespace, foreign characters), and decode(encode(b)) == b with canonical lower-case encoding for one byte string of every length 0..=4096 and all two-byte strings, across six whitespace/case/prefix layouts.',
+                note='chars().filter(is_whitespace).collect::<String>() + strip_prefix + hex::decode: Verus cannot model str, CBMC did not finish even on 1-character inputs (Unicode tables, String growth). hex::decode_to_slice itself is proved under C15. "No output on error" is checked at process level by nb_cli_malformed_inputs_are_ordinary_errors (C17).',
+                native_timeout=2400),
     'C10': dict(level='proof',
                 technique='Verus proof of the extracted message::digest against the EIP-191 preimage spec (Keccak uninterpreted) + Kani pairings + native stand-in for the assumed std formatting contract',
                 claim='For byte strings of every length the value returned by message::digest is Keccak-256 applied to exactly 0x19 "Ethereum Signed Message:\\n" ++ decimal(len) ++ message (Verus, unbounded; the prefix literal is taken from the source text each run). EthereumMessage::signing_message delegates to it (Kani pairings, lengths 0/1/10 with symbolic content).',
